@@ -7,7 +7,7 @@ import os
 import time
 from pathlib import Path
 
-from .model import FuncInfo, Program, norm
+from .model import AnalysisError, FuncInfo, Program, norm
 
 VERIF = Path(__file__).resolve().parent.parent
 EVIDENCE_DIR = Path(os.environ.get("SA_EVIDENCE_DIR", VERIF / "evidence"))
@@ -44,6 +44,7 @@ class Result:
         self.prog = prog
         self.obligations: list[Obligation] = []
         self.notes: list[str] = []
+        self.dep_errors: list[str] = []     # analysis errors of packs this one depends on (deferred: violations are reported first)
         self.floors: dict[str, int] = {}
         self.assumptions: list[str] = []
         self.trusted_base: list[str] = []
@@ -156,13 +157,21 @@ def depends(res: "Result", rule: str, prog, tier: str, prop: str, accept=None, w
         scratch = Result(prop, prog)
         try:
             importlib.import_module(f"{__package__}.rules.{prop.lower()}").run(prog, scratch, tier)
+        except AnalysisError as exc:
+            # the dependency could not be analysed: this property's own rules still run and report; if they find nothing the
+            # run ends as an analysis error (undecided), exactly as the dependency's own check does
+            scratch.dep_errors.append(f"{prop}: {exc}")
         except BaseException:
             del cache[(prop, tier)]
             raise
+        scratch.dep_errors and res.dep_errors.extend(e for e in scratch.dep_errors if e not in res.dep_errors)
         cache[(prop, tier)] = scratch
     n = 0
     if cache[(prop, tier)] is None:
         return 0
+    for e in cache[(prop, tier)].dep_errors:
+        if e not in res.dep_errors:
+            res.dep_errors.append(e)
     for o in cache[(prop, tier)].obligations:
         if accept is None or accept(o):
             ob = res.add(rule, None, None, o.ok, f"[{o.rule}] {o.detail}", construct=o.construct, key=f"{o.rule}:{o.key}", where=o.where)
